@@ -48,10 +48,13 @@ static int64_t x_eid (int64_t a, double b) { int64_t y; memcpy (&y, &b, 8); logi
 static int32_t x_e32 (int32_t a) { logit (11, a, 0, 0, 0); return a * 2 - 1; }   /* narrow C types: callee sees truncated values */
 static uint8_t x_eu8 (uint8_t a) { logit (12, a, 0, 0, 0); return (uint8_t) (a + 200); }
 static int16_t x_e16 (int16_t a) { logit (13, a, 0, 0, 0); return (int16_t) (a - 30000); }
+static int64_t x_e10 (int64_t a, int64_t b, int64_t c, int64_t d, int64_t e, int64_t f, int64_t g, int64_t h, int64_t i, int64_t j) {
+  logit (14, a, b, c, d); logit (15, e, f, g, h); logit (16, i, j, 0, 0); return a + 2 * b + 3 * c + 4 * d + 5 * e + 6 * f + 7 * g + 8 * h + 9 * i + 10 * j;
+}
 const ri_ext mh_exts[] = {
   {"e0", (void *) x_e0, 1}, {"e1", (void *) x_e1, 1}, {"e2", (void *) x_e2, 1}, {"ev", (void *) x_ev, 1}, {"ed", (void *) x_ed, 1}, {"ef", (void *) x_ef, 1},
   {"emem", (void *) x_emem, 1}, {"e6", (void *) x_e6, 1}, {"edd", (void *) x_edd, 1}, {"eid", (void *) x_eid, 1}, {"e32", (void *) x_e32, 1}, {"eu8", (void *) x_eu8, 1},
-  {"e16", (void *) x_e16, 1}, {"gbuf", (void *) mh_gbuf, 0},
+  {"e16", (void *) x_e16, 1}, {"e10", (void *) x_e10, 1}, {"gbuf", (void *) mh_gbuf, 0},
 };
 const int mh_n_exts = sizeof (mh_exts) / sizeof (mh_exts[0]);
 
